@@ -426,6 +426,31 @@ def tensor_getitem(it, t: STensor, idx, node=None):
     items = _norm_index(t, idx)
     if sum(1 for i in items if i is not None) > t.ndim:
         ops.raise_(IndexError, "too many indices for tensor", node=node)
+    adv = [i for i in items if isinstance(i, STensor) and i.ndim == 1 and i.dtype == "int"]
+    if adv:
+        # t[A, B, ...]: 1-D integer index tensors of one common length on the leading dimensions, full slices after
+        k = len(adv)
+        if items[:k] != adv or any(not (isinstance(i, slice) and i == slice(None)) for i in items[k:]):
+            raise OutOfSubset("advanced (tensor) indexing other than t[A, B, ...] on the leading dimensions", node)
+        cx = it.cx
+        m = adv[0].shape_[0]
+        for a in adv[1:]:
+            if dim_eq(a.shape_[0], m) is not True and cx.branch(dim_z3(a.shape_[0]) != dim_z3(m), node):
+                ops.raise_(IndexError, "shape mismatch: indexing tensors could not be broadcast together", node=node)
+        q = z3.Int(cx.fresh_name("q"))
+        inb = z3.And(*[z3.And(-dim_z3(d) <= a.fn((q,)), a.fn((q,)) < dim_z3(d)) for a, d in zip(adv, t.shape_)])
+        # safety obligation (an index outside the dimension raises IndexError in torch)
+        cx.prove("advanced indexing: every index is inside its dimension",
+                 z3.ForAll([q], z3.Implies(z3.And(0 <= q, q < dim_z3(m)), inb)),
+                 where=f"line {getattr(node, 'lineno', '?')}")
+
+        def afn(out_idx):
+            lead = []
+            for a, d in zip(adv, t.shape_):
+                v = a.fn((out_idx[0],))
+                lead.append(z3.If(v >= 0, v, v + dim_z3(d)))
+            return t.fn(tuple(lead) + tuple(out_idx[1:]))
+        return STensor((m,) + tuple(t.shape_[k:]), afn, t.dtype)
     new_shape = []
     plan = []   # per source dim: ('fix', z3 int) | ('var', offset)
     src = 0
@@ -1006,7 +1031,7 @@ def t_all(it, t, dim=None, **kw):
     return reduce_quant(it, t, dim, True)
 
 
-@tmethod("float", "double", "clone", "detach", "cpu", "contiguous")
+@tmethod("float", "double", "clone", "detach", "cpu", "contiguous", "numpy")
 def t_float(it, t, *a, **k):
     if t.dtype == "real":
         return STensor(t.shape_, t.fn, "real")
@@ -1253,6 +1278,69 @@ def _sv_shape(shape):
 def _full(shape_args, value, dtype):
     shape = _sv_shape(_shape_arg(shape_args))
     return STensor.const(shape, value, dtype)
+
+
+@model(torch.arange)
+def m_arange(it, *args, **kw):
+    if len(args) != 1:
+        raise OutOfSubset("torch.arange with start / step")
+    n = args[0]
+    n = n.e if isinstance(n, SV) else n
+    return STensor((n,), lambda idx: idx[0], "int")
+
+
+def _argext(it, t, dim, keepdim, is_min):
+    """argmin / argmax along one dimension: an uninterpreted index function constrained by the library's contract
+    (index of the first extremal entry; NaN-free real entries).  An empty dimension raises."""
+    t = as_tensor(it, t)
+    if dim is None or keepdim:
+        raise OutOfSubset("argmin/argmax without dim or with keepdim")
+    dim = dim % t.ndim
+    cx = it.cx
+    J = dim_z3(t.shape_[dim])
+    if cx.branch(J <= 0):
+        ops.raise_(IndexError, "argmin(): Expected reduction dim to have non-zero size")
+    rest = tuple(d for k, d in enumerate(t.shape_) if k != dim)
+    F = z3.Function(cx.fresh_name("argext"), *([z3.IntSort()] * len(rest)), z3.IntSort()) if rest else None
+    c0 = z3.Int(cx.fresh_name("argext")) if not rest else None
+
+    def val(idx):
+        return F(*idx) if rest else c0
+
+    def full(idx, j):
+        return tuple(list(idx[:dim]) + [j] + list(idx[dim:]))
+    ivs = [z3.Int(cx.fresh_name("ai")) for _ in rest]
+    j = z3.Int(cx.fresh_name("aj"))
+    dom = z3.And(*[z3.And(0 <= i, i < dim_z3(d)) for i, d in zip(ivs, rest)]) if rest else z3.BoolVal(True)
+    best = t.elem_real(full(ivs, val(ivs)))
+    other = t.elem_real(full(ivs, j))
+    cmp_all = (best <= other) if is_min else (best >= other)
+    cmp_first = (other > best) if is_min else (other < best)
+    body = z3.And(0 <= val(ivs), val(ivs) < J,
+                  z3.ForAll([j], z3.Implies(z3.And(0 <= j, j < J), cmp_all)),
+                  z3.ForAll([j], z3.Implies(z3.And(0 <= j, j < val(ivs)), cmp_first)))
+    cx.assume(z3.ForAll(ivs, z3.Implies(dom, body)) if ivs else body)
+    return STensor(rest, lambda idx: val(list(idx)), "int")
+
+
+@model(torch.argmin)
+def m_argmin(it, t, dim=None, keepdim=False):
+    return _argext(it, t, dim, keepdim, True)
+
+
+@model(torch.argmax)
+def m_argmax(it, t, dim=None, keepdim=False):
+    return _argext(it, t, dim, keepdim, False)
+
+
+@tmethod("argmin")
+def t_argmin(it, t, dim=None, keepdim=False):
+    return _argext(it, t, dim, keepdim, True)
+
+
+@tmethod("argmax")
+def t_argmax(it, t, dim=None, keepdim=False):
+    return _argext(it, t, dim, keepdim, False)
 
 
 @model(torch.zeros)
